@@ -43,10 +43,10 @@ import (
 	"compress/gzip"
 	"crypto/sha256"
 	"errors"
-	"math/rand"
 	"fmt"
 	"io"
 	"io/fs"
+	"math/rand"
 	"os"
 	"path/filepath"
 	"sort"
@@ -223,7 +223,9 @@ func escapes(dir string) []string {
 
 type badLayer struct{ v1.Layer }
 
-func (badLayer) Uncompressed() (io.ReadCloser, error) { return nil, errors.New("injected: cannot open layer") }
+func (badLayer) Uncompressed() (io.ReadCloser, error) {
+	return nil, errors.New("injected: cannot open layer")
+}
 
 type wrapImage struct {
 	v1.Image
